@@ -1038,6 +1038,26 @@ class SymCtx:
     def guard(self, label, fn, *a, expect=(), **kw):
         return _guard(self, label, fn, a, kw, expect)
 
+    def external(self, label, ok, assignment=None, detail=""):
+        """Verdict of an obligation decided by another solver-backed engine of this framework (cir): `ok` discharged,
+        otherwise `assignment` is the counterexample (harness variable -> value) that the concrete replay re-runs."""
+        ex = self.ex
+        ex.stats.obligations += 1
+        ex.stats.nontrivial += 1
+        self.reach(label)
+        if ok:
+            ex.stats.discharged += 1
+            return True
+        ex.findings.append(Finding(label, dict(assignment or {}), detail))
+        return False
+
+    def add_stats(self, **kw):
+        for k_, v in kw.items():
+            if k_ == "solver_s":
+                self.ex.stats.solver_s += v
+            else:
+                setattr(self.ex.stats, k_, getattr(self.ex.stats, k_) + v)
+
     # term helpers (work in both modes) ----------------------------------------------
     @staticmethod
     def all(items):
@@ -1190,6 +1210,12 @@ class ConcreteCtx:
 
     def guard(self, label, fn, *a, expect=(), **kw):
         return _guard(self, label, fn, a, kw, expect)
+
+    def external(self, label, ok, assignment=None, detail=""):
+        return self.prove(builtins.bool(ok), label, detail)
+
+    def add_stats(self, **kw):
+        pass
 
     all = staticmethod(lambda items: builtins.all(items))
     any = staticmethod(lambda items: builtins.any(items))
